@@ -139,9 +139,31 @@ type Plan struct {
 	Assume []string
 	Real   []string
 	Sim    []string
+	Expect []string // probes (rare conditions) this check is expected to hit; one stuck at zero is reported
 }
 
 var plans = map[string]*Plan{}
+
+// expectedProbes: the rare conditions each check's workload is meant to reach.
+var expectedProbes = map[string][]string{
+	"C01": {"links-left-under-dst", "multi-entry-success", "rejected:name-escape", "rejected:through-link", "shared-packer-second-destination"},
+	"C04": {"first-bad-is-link:link-abs", "first-bad-is-link:link-lex-escape", "links-left-under-dst", "rejected:link-abs", "rejected:link-lex-escape"},
+	"C15": {"multi-entry-success", "unsupported-type-entry", "rejected:unsupported-type"},
+	"C02": {"roundtrip-compared", "pipelined-roundtrip", "pipe-filled-to-capacity", "concurrent-packs-interleaved"},
+	"C03": {"path-excluded-by-rules", "deref-dir-path-judged", "bundle-path-removed-by-rules", "concurrent-packs-interleaved"},
+	"C05": {"dereferenced-content-copied", "link-entry-stored", "out-of-tree-link-without-deref", "deref-copy-verified", "roundtrip-unpacked"},
+	"C16": {"same-output-confirmed", "concurrent-packs-interleaved", "model-list-compared"},
+	"C20": {"meta-with-regular-files", "concurrent-packs-interleaved"},
+	"C08": {"build-succeeded", "dependencies-discovered", "registry-lookup-checked", "packages-coalesced", "bundle-link-validated"},
+	"C14": {"build-succeeded", "dependencies-discovered"},
+	"C17": {"version-selection-checked", "deprecation-recorded", "build-failed"},
+	"C13": {"variants-compared", "packages-coalesced"},
+	"C09": {"reopened", "shipped"},
+	"C10": {"bundle-link-validated", "hostile-link-to-existing-sibling-package", "build-failed"},
+	"C18": {"hostile-manifest-opened", "corrupt-manifest-refused", "reverse-lookups-checked", "hostile-manifest-refused"},
+	"C12": {"crash-probe", "finder-diagnostic-delivered", "unpack-ok-despite-fault", "build-failed"},
+	"C19": {"parser:source", "hostile-manifest-refused"},
+}
 
 // ---------------------------------------------------------------------------
 
@@ -682,6 +704,14 @@ func writeEvidence(plan *Plan, tier string, verifSeed uint64, agg *Agg, start ti
 		uidMix[fmt.Sprint(k)] = v
 	}
 	stuck := []string{}
+	for _, p := range expectedProbes[plan.ID] {
+		if agg.Probes[p] == 0 {
+			stuck = append(stuck, p)
+		}
+	}
+	if len(stuck) > 0 {
+		fmt.Fprintf(os.Stderr, "verifctl: note: probes stuck at zero for %s: %v (workload did not reach these conditions in this run)\n", plan.ID, stuck)
+	}
 	cov := map[string]interface{}{
 		"evaluations":         agg.Evals,
 		"distinct_nontrivial": len(agg.nontrivial),
